@@ -105,3 +105,17 @@ package oxia
 //@ ensures counter >= 0 && (ghost(closed, ch) == 0 || ghost(closed, ch) == 1) && ((counter == 0) <==> ghost(closed, ch) == 1)
 //@ ensures selected != nil
 //@ modifies *
+
+// A range scan on one shard completes on every path: whatever happens (the stream cannot
+// be opened, breaks, or ends), the result channel is closed exactly once at the end and
+// nothing is sent after that.
+//
+//@ func clientImpl.rangeScanFromShard(c, ctx, minKeyInclusive, maxKeyExclusive, shardId, secondaryIndexName, ch)
+//@ property C20
+//@ chanstate
+//@ requires c.executor != nil && ch != nil && ghost(closed, ch) == 0
+//@ loop 0 modifies fresh
+//@ loop 0 invariant client != nil
+//@ loop 1 modifies fresh
+//@ ensures ghost(closed, ch) == 1
+//@ modifies ghost(closed, ch)
